@@ -407,6 +407,8 @@ def run(ctx: Ctx):
            f"log_prob runs the model as {[u(c) for c in lmc]}; the batched and the unbatched branch must both start "
            f"from a copy of the distribution's initial state, as sampling does, or the reported log-probability is that "
            f"of a different distribution", rel, lp.line, sample=[u(c) for c in lmc])
+    from .search_common import eos_is_stored_normalised as _eosn
+    _eosn(ctx, ctx.pkg.func("_decoding::RandomWalk.__init__"), "S7")
     from .search_common import initial_state_reaches_the_model as _isr
     _isr(ctx, ctx.pkg.func("_decoding::RandomWalk.forward"), "S6")
     plumbing(ctx, "S1")
